@@ -1,5 +1,37 @@
+//! Hooked into `crates/step_sim/src/market_env.rs` (child module: sees `MarketEnv`'s private fields).
 #![allow(dead_code)]
-#[cfg(not(kani))]
-pub fn lookup(_name: &str) -> Option<fn()> {
-    None
+#![allow(clippy::all)]
+use super::*;
+use crate::verif::*;
+use bourse_book::verif::book::*;
+#[allow(unused_imports)]
+use bourse_book::verif::src::*;
+use bourse_book::{vcheck, vcover, vharnesses};
+
+impl<const A: usize, const L: usize> MarketEnv<A, L> {
+    /// assemble an environment around a given market (harness constructor)
+    pub fn verif_from_market(step_size: Nanos, market: Market<A, L>) -> Self {
+        let level_2_data = market.level_2_data();
+        Self {
+            step_size,
+            market,
+            trade_vols: array::from_fn(|_| Vec::new()),
+            transactions: Vec::new(),
+            level_2_data,
+            level_2_data_records: array::from_fn(|_| Level2DataRecords::new()),
+        }
+    }
+    pub fn verif_queue_len(&self) -> usize {
+        self.transactions.len()
+    }
+    pub fn verif_queued(&self, i: usize) -> (u8, MarketOrderId, Option<Price>, Option<Vol>) {
+        match &self.transactions[i] {
+            Event::New { order_id } => (0, *order_id, None, None),
+            Event::Cancellation { order_id } => (1, *order_id, None, None),
+            Event::Modify { order_id, new_price, new_vol } => (2, *order_id, *new_price, *new_vol),
+        }
+    }
+}
+
+vharnesses! {
 }
